@@ -445,6 +445,36 @@ def make_exempt():
     return fn
 
 
+EX_LINES = {"ip": "addr 192.168.7.9 up", "mac": "hw 52:54:00:ab:cd:ef x", "hostname": "on myhost.example.org now", "keyword": "a secret b", "password": "password: XYZ"}
+EX_NAMES = ["ip", "mac", "hostname", "keyword", "password"]
+
+
+def make_exempt_sequence(calls):
+    """one Cleaner cleans several specs in a row, each with its own exemption list: what a spec's exemptions switch off must not
+    carry over to the specs cleaned after it (the collection reuses one Cleaner for every spec)"""
+    def fn(en):
+        cl = K.make_cleaner(K.Cfg(), keywords=KEYWORDS)
+        hist = []
+        for i in range(calls):
+            ex = en.choice("ex%d" % i, len(EX_NAMES) + 2)          # one obfuscator, none (5) or None instead of a list (6)
+            via_file = False
+            no_obf = [EX_NAMES[ex]] if ex < len(EX_NAMES) else ([] if ex == len(EX_NAMES) else None)
+            hist.append(no_obf)
+            lines = [EX_LINES[n] for n in EX_NAMES]
+            case = lambda mv, h=list(hist): {"kind": "exempt-seq", "history": h}  # noqa
+            en.note_sample(case)
+            out = cl.clean_content(list(lines), no_obfuscate=no_obf)
+            en.must_hold(len(out) == len(lines), "exemption-exact", case, detail="lines were lost")
+            if len(out) != len(lines):
+                return
+            for n, a, b in zip(EX_NAMES, lines, out):
+                changed = not (b == a)
+                want = not (no_obf and n in no_obf)
+                en.must_hold(changed == want, "exemption-exact", case,
+                             detail="call %d (exemptions %r after history %r): the %s line is %s" % (i + 1, no_obf, hist[:-1], n, "changed" if changed else "unchanged"))
+    return fn
+
+
 def obligations(tier):
     thorough = tier == "thorough"
     enc = [CL.Cleaner.clean_content, IPM.IPv4.parse_line, IPM.IPv4._ip2db, MACM.Mac.parse_line, MACM.Mac._mac2db, HNM.Hostname.parse_line, HNM.Hostname._hn2db,
@@ -483,6 +513,10 @@ def obligations(tier):
                    encoded=[SF.ContentProvider._clean_content, SF.ContentProvider.write], budget_s=600 if thorough else 150, replay="clean", check_sample=True),
         Obligation("O7-exemptions", make_exempt(), ["exemption-exact"], desc="no_obfuscate switches exactly the named obfuscator off", bounds={"obfuscators": 5},
                    stubs=K.STUBS, encoded=enc[:1], budget_s=60, replay="clean", check_sample=True),
+        Obligation("O7b-exemption-sequence", make_exempt_sequence(3 if thorough else 2), ["exemption-exact"],
+                   desc="one Cleaner cleans several specs in a row with different exemption lists: an exemption does not carry over to the next spec",
+                   bounds={"calls on one Cleaner": 3 if thorough else 2, "exemption per call": "one of the 5 obfuscators / [] / None", "lines": "one fixed line per obfuscator"},
+                   stubs=K.STUBS, encoded=enc[:1], budget_s=120, replay="clean", check_sample=True),
     ]
 
 
@@ -574,6 +608,17 @@ def _native(case):
                 bad.append("exempted spec lost lines")
         elif out != ["harmless line"]:
             bad.append("line %r containing pattern %r survives: %r" % (case["line"], case["pattern"], out))
+    elif kind == "exempt-seq":
+        cl = K.make_cleaner(K.Cfg(), keywords=KEYWORDS)
+        lines = [EX_LINES[n] for n in EX_NAMES]
+        for i, no_obf in enumerate(case["history"]):
+            out = cl.clean_content(list(lines), no_obfuscate=no_obf)
+            if len(out) != len(lines):
+                bad.append("call %d lost lines" % (i + 1))
+                break
+            for n, a, b in zip(EX_NAMES, lines, out):
+                if (a != b) != (not (no_obf and n in no_obf)):
+                    bad.append("call %d with exemptions %r after %r: the %s line is %s" % (i + 1, no_obf, case["history"][:i], n, "changed" if a != b else "unchanged"))
     else:
         cl = K.make_cleaner(K.Cfg(), keywords=KEYWORDS)
         out = cl.clean_content([case["line"]], no_obfuscate=[case["which"]] if case["exempt"] else [])
